@@ -291,6 +291,38 @@ func c11Ops() []concOp {
 		{"Aggregate(shared aggregations)", false, func(q qframe.QFrame, y func()) string {
 			return digestUnordered(q.GroupBy(groupby.Columns("k")).Aggregate(c11SharedAggs...))
 		}},
+		{"Distinct / GroupBy keyed on the float column with zeros and NaNs", false, func(q qframe.QFrame, y func()) string {
+			d := q.Distinct(groupby.Columns("z"), groupby.Null(true))
+			fs, _ := q.GroupBy(groupby.Columns("z"), groupby.Null(true)).QFrames()
+			g := q.GroupBy(groupby.Columns("z", "k")).Aggregate(qframe.Aggregation{Fn: "count", Column: "i"})
+			return fmt.Sprint(d.Len(), len(fs), g.Len(), q.Distinct(groupby.Columns("f", "z")).Len())
+		}},
+		{"FloatView(z) bit patterns", false, func(q qframe.QFrame, y func()) string {
+			v := q.MustFloatView("z")
+			var bits []uint64
+			for i := 0; i < v.Len(); i++ {
+				bits = append(bits, math.Float64bits(v.ItemAt(i)))
+			}
+			return fmt.Sprintf("%x", bits)
+		}},
+		// calls that fail (column names that are close misspellings of existing ones): a failed call is an
+		// operation on the frame like any other
+		{"failing calls with misspelled column names", false, func(q qframe.QFrame, y func()) string {
+			errs := []bool{
+				q.Filter(qframe.Filter{Column: "ee", Comparator: "=", Arg: "lo"}).Err != nil,
+				q.Filter(qframe.Filter{Column: "i", Comparator: ">", Arg: types.ColumnName("zz")}).Err != nil,
+				q.Sort(qframe.Order{Column: "i"}, qframe.Order{Column: "S"}).Err != nil,
+				q.Select("i", "ss").Err != nil,
+				q.Distinct(groupby.Columns("k", "Z")).Err != nil,
+				q.GroupBy(groupby.Columns("E")).Err != nil,
+				q.GroupBy(groupby.Columns("k")).Aggregate(qframe.Aggregation{Fn: "sum", Column: "zi"}).Err != nil,
+				q.Copy("n", "es").Err != nil,
+				q.Apply(qframe.Instruction{Fn: "ToUpper", DstCol: "n", SrcCol1: "sz"}).Err != nil,
+				q.Eval("n", qframe.Expr("abs", types.ColumnName("fz"))).Err != nil,
+				q.Drop("ez").Err != nil,
+			}
+			return fmt.Sprint(errs, q.ColumnNames())
+		}},
 		{"String", false, func(q qframe.QFrame, y func()) string { return q.String() }},
 		{"Equals", false, func(q qframe.QFrame, y func()) string {
 			a, b := q.Equals(q.Sort(qframe.Order{Column: "i"}))
@@ -314,6 +346,8 @@ func c11Base() qframe.QFrame {
 		{Name: "f", Kind: model.Float, Cells: []model.Cell{model.F(3e40), model.NaN(), model.F(-1e300), model.NaN()}},
 		{Name: "s", Kind: model.String, Cells: []model.Cell{model.S("abca"), model.Null(), model.S("aıxa"), model.S("b")}},
 		{Name: "e", Kind: model.Enum, EnumVals: []string{"lo", "hi"}, Cells: []model.Cell{model.S("lo"), model.Null(), model.S("hi"), model.S("lo")}},
+		// both zeros and a NaN with a payload: values a hash or comparison may want to normalise
+		{Name: "z", Kind: model.Float, Cells: []model.Cell{model.F(math.Copysign(0, -1)), model.F(math.Float64frombits(0x7ff8000000000abc)), model.F(0), model.F(1.5)}},
 	}})
 }
 
